@@ -20,7 +20,9 @@ LEVEL = 'fault_enumeration'
 RULE = ('object sizes 1..8 segments (incl. empty contents) and unsegmented objects, with/without a version component, every '
         'discovery answer (segment k / unsegmented), loss patterns 0..retry+1 per request relative to retry_times in {1,2,3}, '
         'final-block marker on every segment or on the last only, Nack / validation failure injected at each position; '
-        'distinct = the full script; non-trivial = more than one segment or some loss/fault')
+        'the name given in every accepted form (list, tuple, URI, encoded, one-shot generator / iterator); 2-3 fetchers of one '
+        'object on one application started at different instants against a producer with a response delay, judged by a '
+        'discrete-event model (per-fetcher loss scripts); distinct = the full script; non-trivial = more than one segment or some loss/fault')
 
 C = lambda s: rc.comp(8, s)   # noqa
 SEG = lambda n: rc.comp(0x32, rc.enc_nni(n))   # noqa
@@ -134,8 +136,12 @@ def execute(sc):
                     return False
             return True
 
+        form = sc.get('name_form', 'list')
+        name_arg = {'list': lambda: list(prefix), 'tuple': lambda: tuple(prefix), 'uri': lambda: rc.name_to_uri(prefix, canonical=True),
+                    'encoded': lambda: rc.enc_name(prefix), 'generator': lambda: (c for c in prefix), 'iterator': lambda: iter(list(prefix)),
+                    'list-str': lambda: [rc.comp_to_canonical_uri(c) for c in prefix]}[form]()
         try:
-            async for c in segment_fetcher(the_app, prefix, timeout=100, retry_times=sc['retry'], validator=validator):
+            async for c in segment_fetcher(the_app, name_arg, timeout=100, retry_times=sc['retry'], validator=validator):
                 R['yielded'].append(None if c is None else bytes(c))
                 if len(R['yielded']) > 50:
                     R['outcome'] = 'runaway'
@@ -161,7 +167,8 @@ def gen_script(rng):
     n = rng.choice([0, 1, 1, 2, 3, 4, 5, 8])
     retry = rng.choice([1, 2, 3])
     sc = {'n': n, 'retry': retry, 'version': rng.random() < 0.5, 'marker': rng.choice(['every', 'last']),
-          'disc_answer': rng.randrange(n) if n else 0, 'loss': {}, 'fault': None}
+          'disc_answer': rng.randrange(n) if n else 0, 'loss': {}, 'fault': None,
+          'name_form': rng.choice(['list', 'list', 'tuple', 'uri', 'encoded', 'generator', 'iterator', 'list-str'])}
     keys = ['disc'] + list(range(n))
     for k in keys:
         if rng.random() < 0.35:
@@ -201,8 +208,226 @@ def judge(ctx, sc, R, S):
     if got_att != exp_att:
         ctx.report('attempts-per-segment', f'Interests per request {got_att}, expected {exp_att}', w)
     ctx.event('outcome-' + str(R['outcome']))
+    ctx.event('name-form-' + sc.get('name_form', 'list'))
+    if sc.get('name_form') in ('generator', 'iterator') and sc['loss'].get('disc'):
+        ctx.event('one-shot-name-with-lost-discovery')
     ctx.case(repr(sorted(sc.items(), key=str)), nontrivial=sc['n'] > 1 or bool(sc['loss']) or bool(fault),
              sample=w if ctx.evaluations % 300 == 1 else None)
+
+
+# ---------------------------------------------------------------- several fetchers on one application
+TIMEOUT = 100
+
+
+def model_concurrent(sc):
+    """Discrete-event model of k fetchers of one object on one application (integer milliseconds).
+    -> (per fetcher {'yielded', 'outcome'}, requests {(f, key): n}, tie)   tie: an expiry and a matching arrival coincide"""
+    import heapq
+    n, last, R, d = sc['n'], sc['n'] - 1, sc['retry'], sc['delay']
+    F = [{'phase': None, 'want': None, 'trial': 0, 'expire': None, 'yielded': [], 'outcome': None, 'token': 0} for _ in sc['starts']]
+    req = {}
+    ev = []
+    order = [0]
+    tie = [False]
+
+    def push(t, kind, payload):
+        order[0] += 1
+        heapq.heappush(ev, (t, order[0], kind, payload))
+
+    def express(f, t):
+        st = F[f]
+        key = st['want']
+        req[(f, key)] = req.get((f, key), 0) + 1
+        st['token'] += 1
+        st['expire'] = t + TIMEOUT
+        push(t + TIMEOUT, 'expire', (f, st['token']))
+        if req[(f, key)] <= sc['loss'].get(f'{f}:{key}', 0):
+            return
+        if key == 'disc':
+            dk = 'U' if n == 0 else sc['disc_answer']
+        else:
+            dk = key
+        push(t + d, 'data', dk)
+
+    def receive(f, dk, t):
+        st = F[f]
+        st['expire'] = None
+        st['token'] += 1
+        if st['want'] == 'disc':
+            if dk == 'U':
+                st['yielded'].append(b'U')
+                st['outcome'], st['want'] = 'done', None
+                return
+            if dk == 0:
+                st['yielded'].append(content(0))
+                if last == 0:
+                    st['outcome'], st['want'] = 'done', None
+                    return
+                nxt = 1
+            else:
+                nxt = 0
+        else:
+            st['yielded'].append(content(dk))
+            if dk == last:
+                st['outcome'], st['want'] = 'done', None
+                return
+            nxt = dk + 1
+        st['want'], st['trial'] = nxt, 0
+        express(f, t)
+
+    for f, t0 in enumerate(sc['starts']):
+        push(t0, 'start', f)
+    while ev:
+        t, _, kind, payload = heapq.heappop(ev)
+        if kind == 'start':
+            F[payload]['want'], F[payload]['trial'] = 'disc', 0
+            express(payload, t)
+        elif kind == 'data':
+            # two different Data packets due at the same instant: which one a discovery Interest sees first depends on the
+            # loop's timer order, which nothing specifies - such scripts are not judged
+            if any(e[0] == t and e[2] == 'data' and e[3] != payload for e in ev) and any(st['want'] == 'disc' for st in F):
+                tie[0] = True
+            for f, st in enumerate(F):
+                if st['want'] is None:
+                    continue
+                if st['want'] == 'disc' or st['want'] == payload:
+                    if st['expire'] == t:
+                        tie[0] = True
+                    receive(f, payload, t)
+        else:
+            f, token = payload
+            st = F[f]
+            if st['token'] != token or st['want'] is None:
+                continue
+            st['trial'] += 1
+            if st['trial'] >= R:
+                st['outcome'], st['want'] = 'timeout', None
+            else:
+                express(f, t)
+    return F, req, tie[0]
+
+
+def execute_concurrent(sc):
+    obs = {'f': [{'yielded': [], 'outcome': None} for _ in sc['starts']], 'requests': {}}
+    prefix = [C(b'obj')]
+    ver = [rc.comp(0x36, b'\x07')] if sc['version'] else []
+    last = sc['n'] - 1
+
+    async def main(S):
+        face = RecFace()
+        the_app = appv1.NDNApp(face=face, keychain=KeychainDigest())
+        main_task = asyncio.ensure_future(the_app.main_loop())
+        await asyncio.sleep(0)
+        who = {}
+        loop = asyncio.get_running_loop()
+
+        def seg_data(k):
+            fb = SEG(last) if (sc['marker'] == 'every' or k == last) else None
+            return bytes(make_data(prefix + ver + [SEG(k)], MetaInfo(final_block_id=fb, freshness_period=10), content(k), DigestSha256Signer()))
+
+        def on_send(wire):
+            try:
+                p = rc.strict_interest(wire)
+            except rc.Reject:
+                return
+            f = who.get(asyncio.current_task(), '?')          # the fetcher whose task is sending (Interests carry no other identity)
+            name = p['name']
+            if name == prefix:
+                key = 'disc'
+            elif name[:-1] == prefix + ver and rc.comp_parts(name[-1])[0] == 0x32:
+                key = int.from_bytes(rc.comp_parts(name[-1])[1], 'big')
+            else:
+                key = 'other:' + rc.name_to_uri(name, canonical=True)
+            obs['requests'][(f, key)] = obs['requests'].get((f, key), 0) + 1
+            if obs['requests'][(f, key)] <= sc['loss'].get(f'{f}:{key}', 0):
+                return
+            if key == 'disc':
+                dwire = bytes(make_data(prefix + ver, MetaInfo(freshness_period=10), b'U', DigestSha256Signer())) if sc['n'] == 0 else seg_data(sc['disc_answer'])
+            elif isinstance(key, int) and 0 <= key <= last:
+                dwire = seg_data(key)
+            else:
+                return
+            if sc['delay']:
+                loop.call_later(sc['delay'] / 1000, face.deliver_task, dwire)
+            else:
+                loop.call_soon(face.deliver_task, dwire)
+        face.on_send = on_send
+
+        async def validator(name, sig):
+            return True
+
+        async def fetch(i, t0):
+            who[asyncio.current_task()] = i
+            await S.sleep_until_ms(t0)
+            o = obs['f'][i]
+            try:
+                async for c in segment_fetcher(the_app, list(prefix), timeout=TIMEOUT, retry_times=sc['retry'], validator=validator):
+                    o['yielded'].append(None if c is None else bytes(c))
+                    if len(o['yielded']) > 50:
+                        o['outcome'] = 'runaway'
+                        break
+                if o['outcome'] is None:
+                    o['outcome'] = 'done'
+            except types.InterestTimeout:
+                o['outcome'] = 'timeout'
+            except Exception as e:   # noqa
+                o['outcome'] = f'error:{type(e).__name__}'
+        tasks = [asyncio.ensure_future(fetch(i, t0)) for i, t0 in enumerate(sc['starts'])]
+        await asyncio.wait(tasks, timeout=60)
+        for t in tasks:
+            if not t.done():
+                t.cancel()
+        the_app.shutdown()
+        await asyncio.wait_for(main_task, 5)
+
+    S = vtime.run(main)
+    return obs, S
+
+
+def gen_concurrent(rng):
+    n = rng.choice([0, 1, 2, 3, 3, 4, 5])
+    k = rng.choice([2, 2, 2, 3])
+    retry = rng.choice([1, 2, 3])
+    sc = {'n': n, 'retry': retry, 'version': rng.random() < 0.5, 'marker': rng.choice(['every', 'last']), 'disc_answer': rng.randrange(n) if n else 0,
+          'delay': rng.choice([0, 7, 31, 62, 88]), 'starts': sorted(rng.sample([0, 13, 41, 79, 96, 127, 160, 233], k)), 'loss': {}}
+    for f in range(k):
+        for key in ['disc'] + list(range(n)):
+            if rng.random() < 0.3:
+                sc['loss'][f'{f}:{key}'] = rng.randint(1, retry)
+    return sc
+
+
+def judge_concurrent(ctx, sc, obs, S):
+    w = {'script': sc, 'observed': {'fetchers': obs['f'], 'requests': {f'{f}:{k}': v for (f, k), v in obs['requests'].items()}}}
+    if S.result != 'ok':
+        ctx.report(f'concurrent-scenario-{S.result}', f'{S.error!r}', w)
+        return
+    F, req, tie = model_concurrent(sc)
+    if tie:
+        ctx.event('concurrent-tie-not-judged')
+        return
+    for le in S.sentinel.all():
+        ex = le.get('exception')
+        ctx.report(f'background-error:{type(ex).__name__ if ex else "?"}', f'{le.get("repr")}', w)
+    ctx.event('concurrent-fetch')
+    shared = False
+    for f, st in enumerate(F):
+        o = obs['f'][f]
+        if o['yielded'] != st['yielded']:
+            ctx.report('concurrent:segments-differ', f'fetcher {f} yielded {o["yielded"]}, expected {st["yielded"]}', w)
+        if o['outcome'] != st['outcome']:
+            ctx.report(f'concurrent:fetch-outcome:expected={st["outcome"]},got={o["outcome"]}',
+                       f'fetcher {f} ended with {o["outcome"]}, expected {st["outcome"]} (several fetchers of one object on one application)', w)
+        ctx.event('concurrent-outcome-' + str(st['outcome']))
+    if obs['requests'] != req:
+        ctx.report('concurrent:attempts-per-segment', f'Interests per (fetcher, request) {sorted(obs["requests"].items(), key=str)}, expected {sorted(req.items(), key=str)}', w)
+    total = sum(req.values())
+    alone = sum(len(st['yielded']) for st in F)
+    if total < alone + len(F) - (1 if sc['n'] == 0 else 0):
+        shared = True
+    if shared:
+        ctx.event('concurrent-data-shared-between-fetchers')
+    ctx.case(('conc', repr(sorted(sc.items(), key=str))), nontrivial=True, sample=w if ctx.evaluations % 200 == 1 else None)
 
 
 def run(ctx):
@@ -227,6 +452,18 @@ def run(ctx):
     for sc in scripts:
         R, S = execute(sc)
         judge(ctx, sc, R, S)
-    for k in ('outcome-done', 'outcome-timeout', 'outcome-nack', 'outcome-valfail'):
+    # several fetchers of the same object on one application, started at different instants, producer with a response delay
+    templates = [
+        # an earlier fetcher whose discovery Interest is lost expires while a later fetcher's Interest of the same name is pending
+        {'n': 3, 'retry': 1, 'version': False, 'marker': 'every', 'disc_answer': 0, 'delay': 62, 'starts': [0, 79], 'loss': {'0:disc': 1}},
+        {'n': 3, 'retry': 2, 'version': True, 'marker': 'last', 'disc_answer': 1, 'delay': 31, 'starts': [0, 96], 'loss': {'0:disc': 1, '1:1': 1}},
+        {'n': 4, 'retry': 3, 'version': False, 'marker': 'every', 'disc_answer': 0, 'delay': 88, 'starts': [0, 41, 79], 'loss': {'0:disc': 1, '0:1': 2, '2:2': 1}},
+        {'n': 2, 'retry': 2, 'version': False, 'marker': 'every', 'disc_answer': 0, 'delay': 0, 'starts': [0, 0], 'loss': {}},
+    ]
+    for sc in templates + [gen_concurrent(rng) for _ in range(ctx.n(250, 100000))]:
+        obs, S = execute_concurrent(sc)
+        judge_concurrent(ctx, sc, obs, S)
+    for k in ('outcome-done', 'outcome-timeout', 'outcome-nack', 'outcome-valfail', 'concurrent-fetch', 'concurrent-outcome-done', 'concurrent-outcome-timeout',
+              'concurrent-data-shared-between-fetchers', 'one-shot-name-with-lost-discovery'):
         ctx.need_event(k)
     ctx.assumptions = ['an object without any final-block marker is outside the statement', 'the legacy front-end is the one segment_fetcher uses']
